@@ -57,6 +57,8 @@ def _csa_case(cfg, values):
             if cfg['prefetch']:
                 q._prefetch_context.attrs_to_prefetch_dict[M.P].add(M.P.opt)
             tr = q._translator
+            # the translator knows variable types the query key does not (types of globals read by inlined helper functions)
+            p.set(tr, 'vartypes', dict(tr.vartypes, **{'extra-func-var': int}))
             rd = RecordingDict(); st['rd'] = rd
             p.set(q._database, '_constructed_sql_cache', rd)
             rec = {}
@@ -91,7 +93,7 @@ def _csa_noninterference(cfg, i, path):
     # the key also pins what the translation / building read besides the arguments
     src = st['key_src']
     ok = (key.get('vartypes') == src['vartypes'] and key.get('fixed_param_values') == src['fixed'] and key.get('inner_join_syntax') == src['ijs']
-          and all(key.get(k) == v for k, v in src['qkey'].items()))
+          and all(key.get(k) == v for k, v in src['qkey'].items() if k != 'vartypes'))      # vartypes: the translator's (superset) wins
     want_prefetch = (st['q']._database.entities['P'].opt,) if cfg['prefetch'] else ()
     return bool(ok and key.get('attrs_to_prefetch') == want_prefetch)
 
